@@ -181,8 +181,8 @@ func (c tcase) name() string {
 // represented by select/drop there, the symbol flow by "symbols").
 var (
 	allGood = []int{0, 1, 2, 3, 4, 5, 6, 7, 8, 9}
-	good7   = []int{0, 1, 2, 3, 5, 6, 7} // insert update delete select symbols drop sql-dml
-	good6   = []int{0, 1, 3, 5, 6, 7}    // insert update select symbols drop sql-dml
+	good5   = []int{0, 1, 3, 6, 7}    // insert update select drop sql-dml
+	good6   = []int{0, 1, 3, 5, 6, 7} // insert update select symbols drop sql-dml
 )
 
 // plan is the good-operation alphabet for each request length 1..len(plan).
@@ -193,7 +193,7 @@ func planFor(thorough bool) plan {
 		return plan{allGood, allGood, allGood, good6}
 	}
 
-	return plan{allGood, allGood, good7}
+	return plan{allGood, allGood, good5}
 }
 
 func (p plan) String() string {
